@@ -212,7 +212,7 @@ class DirectMethod:
             m = s._method
             if isinstance(getattr(m, "Xc_vars", None), MX) and m.Xc_vars.numel()>0:
                 _, states = s.sample(s.x, grid='control')
-                arg_symbols = set(hash(e) for e in symvar(all_args))
+                arg_symbols = set(hash(e) for e in symvar(MX(all_args)))
                 if casadi.depends_on(all_args, states) and not casadi.depends_on(all_args, m.Xc_vars) and \
                     all(hash(e) in arg_symbols for e in symvar(m.Xc_vars0)):
                     extra_vars.append(m.Xc_vars)
